@@ -27,7 +27,7 @@ PROPERTIES = {
                 "(route, denom, amount class, recipient, fee count, dust present, outcome, receiver spelling, raw memo). TestC01LabFaults (LAB world): one packet shape and ONE failing dependency call (returns an error / panics before / panics after its work) at a drawn position; whatever the receive path makes of it, a success acknowledgement never leaves the delivered coin, or more than before, on the orbiter account and anything else leaves the ledger untouched. Non-trivial there = the fault fired.",
         "assumptions": COMMON_ASSUMPTIONS,
         "tests": [{"test": "TestC01History", "quick": 400, "thorough": 192000},
-                  {"test": "TestC01LabFaults", "quick": 500, "thorough": 96000}],
+                  {"test": "TestC01LabFaults", "quick": 500, "thorough": 800000}],
     },
     "C02": {
         "level": "exploration",
@@ -37,7 +37,7 @@ PROPERTIES = {
                 "Distinct by (route, denom, amount class, recipient, fee count, dust present). TestC02LabFaults (LAB world): one packet shape and ONE failing dependency call (returns an error / panics before / panics after its work) at a drawn position; whatever the receive path makes of it, a success acknowledgement comes with exactly the model ledger delta of the complete transfer and anything else leaves the ledger untouched. Non-trivial there = the fault fired.",
         "assumptions": COMMON_ASSUMPTIONS,
         "tests": [{"test": "TestC02History", "quick": 400, "thorough": 192000},
-                  {"test": "TestC02LabFaults", "quick": 500, "thorough": 96000}],
+                  {"test": "TestC02LabFaults", "quick": 500, "thorough": 800000}],
     },
     "C03": {
         "level": "fault_enumeration",
@@ -180,7 +180,7 @@ PROPERTIES = {
         "assumptions": COMMON_ASSUMPTIONS,
         "tests": [
             {"test": "TestC11Pairs", "quick": 2000, "thorough": 800000},
-            {"test": "TestC11HookFees", "quick": 600, "thorough": 160000},
+            {"test": "TestC11HookFees", "quick": 600, "thorough": 800000},
             {"test": "TestC11KnownHookFee", "kind": "plain", "quick": 1, "thorough": 1},
         ],
     },
@@ -246,7 +246,7 @@ PROPERTIES = {
         "tests": [
             {"test": "TestC19InProcess", "quick": 250, "thorough": 80000},
             {"test": "TestC19FreshInstance", "quick": 120, "thorough": 32000},
-            {"test": "TestC19LabFaults", "quick": 400, "thorough": 96000},
+            {"test": "TestC19LabFaults", "quick": 400, "thorough": 400000},
             {"test": "TestC19CrossProcess", "quick": 150, "thorough": 24000, "replicas": 2, "shards": 8},
         ],
     },
@@ -318,7 +318,7 @@ PROPERTIES["C16"] = {
         {"test": "TestC16Differential", "quick": 5000, "thorough": 2000000},
         {"test": "TestC16Unit", "quick": 30000, "thorough": 4000000},
         {"test": "TestC16Adapter", "quick": 20000, "thorough": 4000000},
-        {"test": "TestC16Routes", "quick": 600, "thorough": 160000},
+        {"test": "TestC16Routes", "quick": 600, "thorough": 800000},
         {"test": "FuzzPacket", "kind": "fuzz", "pkg": "light", "fuzztime_s": 180, "tiers": ["thorough"]},
     ],
 }
@@ -367,7 +367,7 @@ PROPERTIES["C10"] = {
                                          "the authority written in another bech32 spelling is a don't-care"],
     "tests": [{"test": "TestC10Authority", "quick": 4000, "thorough": 1200000},
               {"test": "TestC10Wiring", "quick": 4000, "thorough": 400000},
-              {"test": "TestC10Replacement", "quick": 300, "thorough": 64000}],
+              {"test": "TestC10Replacement", "quick": 300, "thorough": 400000}],
 }
 
 PROPERTIES["C13"] = {
